@@ -25,10 +25,16 @@
 (***************************************************************************)
 EXTENDS TraceBase, SequencesExt
 
-VARIABLES l, starts, ends, phase, out,      \* phase/out: the abstract machine's
-          aux                                \* derived data for the hook clauses
+\* State: l (next event), b (index in Rec of the current table's build event, 0 = none yet),
+\* k (how many build events so far), phase / out (the abstract machine's).  The abstract
+\* machine's tables are the refinement mapping  starts <- Rec[b].s, ends <- Rec[b].en : the
+\* recorded tables stay in the (constant) trace instead of being copied into every state.
+VARIABLES l, b, k, phase, out
 
-vars == <<l, starts, ends, phase, out, aux>>
+vars == <<l, b, k, phase, out>>
+
+starts == IF b = 0 THEN <<>> ELSE Rec[b].s
+ends == IF b = 0 THEN <<>> ELSE Rec[b].en
 
 PT == INSTANCE PositionTables WITH MaxPos <- 0, MaxNodes <- 0, Indices <- {}
 PI == INSTANCE PositionTablesImpl WITH W <- 64, R <- 256, IBExtra <- 0
@@ -42,6 +48,8 @@ NonZeroMonotone(en) ==
 
 AllZero(en) == \A j \in 1..Len(en) : en[j] = 0
 
+\* derived data for the hook clauses: which variant the documentation promises, the distinct
+\* positions and the advance ranks of each table
 Aux(s, en) ==
   LET om == PI!OpenMonotone(s)
       em == NonZeroMonotone(en)
@@ -55,13 +63,21 @@ Aux(s, en) ==
       \* EndPositions::build: an all-zero table becomes the empty compact table
       en |-> IF em /\ ~AllZero(en) THEN Len(en) ELSE 0]
 
+\* one entry per build event, evaluated once (constant of the trace)
+AuxSeq ==
+  FoldLeft(LAMBDA acc, e : IF e.e # "build" THEN acc
+                           ELSE Append(acc, IF e.hook = 1 /\ \A j \in 1..Len(e.s) : e.s[j] >= 0
+                                            THEN Aux(e.s, e.en) ELSE [ocompact |-> TRUE]),
+           <<>>, Rec)
+
+aux == AuxSeq[k]
+
 Build(e) ==
   /\ e.e = "build"
   /\ e.n = (IF Len(e.s) > Len(e.en) THEN Len(e.s) ELSE Len(e.en))      \* no constructor panic
   /\ \A j \in 1..Len(e.s) : e.s[j] >= 0                                 \* every node has a start
-  /\ starts' = e.s /\ ends' = e.en
+  /\ b' = l /\ k' = k + 1
   /\ phase' = "look" /\ out' = PT!NoOut
-  /\ aux' = IF e.hook = 1 THEN Aux(e.s, e.en) ELSE [ocompact |-> TRUE]
 
 Cur(c) == [noi |-> c[1], adv |-> c[2], wi |-> c[3], ob |-> c[4], la |-> c[5], lr |-> c[6]]
 
@@ -82,6 +98,7 @@ Arg(a) == IF a < 0 THEN 1073741824 ELSE a
 Query(e) ==
   /\ e.e = "q"
   /\ phase = "look"
+  /\ b' = b /\ k' = k
   /\ LET i == Arg(e.a)
      IN \/ /\ e.op \in {"ts", "bs"}
            /\ PT!LookupStart(i)                       \* out' = <<"start", i, Start(starts, i)>>
@@ -91,10 +108,8 @@ Query(e) ==
            /\ out' = <<"end", i, e.r>>
            /\ UNCHANGED <<starts, ends, phase>>
   /\ HookOk(e)
-  /\ UNCHANGED aux
 
-Init == l = 1 /\ starts = <<>> /\ ends = <<>> /\ phase = "record" /\ out = PT!NoOut
-        /\ aux = [ocompact |-> TRUE]
+Init == l = 1 /\ b = 0 /\ k = 0 /\ phase = "record" /\ out = PT!NoOut
 
 Next == /\ l <= NRec
         /\ LET e == Rec[l] IN Build(e) \/ Query(e)
